@@ -139,6 +139,26 @@ pub struct Expect<'a> {
     /// name -> index in the truth table
     pub index: BTreeMap<&'a str, usize>,
     pub func: &'a TT,
+    /// the names an ordering fixes, in its order (None: no ordering was given, the header must be
+    /// exactly `header`). With an ordering, where the variables it does not list go is not promised:
+    /// the header must be a permutation of `header` that keeps the listed names in their order.
+    pub listed: Option<Vec<String>>,
+}
+
+/// `got` is an acceptable variable order: equal to `want` without an ordering, else a permutation
+/// of it in which the listed names keep their relative order.
+pub fn order_acceptable(got: &[String], want: &[String], listed: Option<&Vec<String>>) -> bool {
+    match listed {
+        None => got == want,
+        Some(l) => {
+            let mut a: Vec<&String> = got.iter().collect();
+            let mut b: Vec<&String> = want.iter().collect();
+            a.sort();
+            b.sort();
+            let sub = |v: &[String]| v.iter().filter(|n| l.contains(n)).cloned().collect::<Vec<_>>();
+            a == b && sub(got) == sub(want)
+        }
+    }
 }
 
 fn cube_tt(n: usize, header_idx: &[usize], cells: &[Cell]) -> TT {
@@ -157,7 +177,7 @@ fn cube_tt(n: usize, header_idx: &[usize], cells: &[Cell]) -> TT {
 pub fn judge_table(p: &Parsed, e: &Expect, filter: u8, model_flag: bool) -> Result<(), (String, String)> {
     let n = e.func.n;
     let header = p.header.as_ref().ok_or(("T1".to_string(), "no table".to_string()))?;
-    if *header != e.header {
+    if !order_acceptable(header, &e.header, e.listed.as_ref()) {
         return Err(("T1".into(), format!("header {:?}, expected the free variables in variable order {:?}", header, e.header)));
     }
     let hidx: Vec<usize> = header.iter().map(|h| e.index[h.as_str()]).collect();
@@ -292,8 +312,11 @@ pub fn judge_vars(p: &Parsed, e: &Expect, model_flag: bool) -> Result<(), (Strin
         }
     }
     // consistency with the printed table, when both are there
-    if p.header.is_some() {
-        let hidx: Vec<usize> = e.header.iter().map(|h| e.index[h.as_str()]).collect();
+    if let Some(printed) = &p.header {
+        if printed.iter().any(|h| !e.index.contains_key(h.as_str())) {
+            return Err(("T1".into(), format!("header {:?} names something that is not a variable of the formula", printed)));
+        }
+        let hidx: Vec<usize> = printed.iter().map(|h| e.index[h.as_str()]).collect();
         let mut t = TT::konst(n, false);
         for r in p.rows.iter().filter(|r| r.result) {
             t = t.or(&cube_tt(n, &hidx, &r.cells));
@@ -322,6 +345,7 @@ mod tests {
             header: names.to_vec(),
             index: names.iter().enumerate().map(|(i, n)| (n.as_str(), i)).collect(),
             func: &f,
+            listed: None,
         };
         judge_table(&p, &e, 0, false).unwrap();
         judge_vars(&p, &e, false).unwrap();
@@ -330,6 +354,7 @@ mod tests {
             header: names.to_vec(),
             index: names.iter().enumerate().map(|(i, n)| (n.as_str(), i)).collect(),
             func: &g,
+            listed: None,
         };
         assert_eq!(judge_table(&p, &e2, 0, false).unwrap_err().0, "T3");
     }
